@@ -146,7 +146,7 @@ CLAIMS["C02"] = dict(
           "method is illegal in the current state gets an error and status 400 and leaves the state unchanged; every exit returns a state related to the "
           "entry state by at most one legal transition; checkState returns nil exactly when the state is in the allowed set (map membership modelled). "
           "That no other function writes the state field is checked syntactically over the whole module on every run. "
-          "ServerConn.handleRequestOuter writes exactly one response on every path (call counter), whatever the handlers return. "
+          "A request that takes the session out of PLAY or RECORD over interleaved TCP returns the switchReadFuncError that puts the connection reader back into request-only mode (dynamic type of the returned error). ServerConn.handleRequestOuter writes exactly one response on every path (call counter), whatever the handlers return. "
           "ServerConn.handleRequestInSession leaves the connection pointing at what the session handler returned (the session, or none once it ended)."),
     note=TRUST + ABSTR + "The CSeq echo (a user hook may rewrite the response), request sequences, timeouts, keep-alive expiry and 'ends exactly once' are NOT decided. Handlers are assumed not to re-enter the session synchronously.",
     design="DESIGN.md section 4, C02",
